@@ -5533,6 +5533,10 @@ class PyCdlib:
         if self.eltorito_boot_catalog is None:
             raise pycdlibexception.PyCdlibInvalidInput('This ISO does not have an El Torito Boot Record')
 
+        if self.isohybrid_mbr is not None:
+            # The hybrid MBR holds the location of the El Torito boot file.
+            raise pycdlibexception.PyCdlibInvalidInput('This ISO has an isohybrid MBR that depends on El Torito; call rm_isohybrid first')
+
         for brindex, br in enumerate(self.brs):
             if br.boot_system_identifier == b'EL TORITO SPECIFICATION'.ljust(32, b'\x00'):
                 eltorito_index = brindex
